@@ -47,7 +47,7 @@ type Kernel struct {
 	OnOp func(detail string)
 	// OnCall, if set, brackets every handler invocation made on behalf of a
 	// simulated process (enter=true before, false after).
-	OnCall  func(enter bool)
+	OnCall  func(what string, enter bool)
 	NoCache bool // bypass the page cache entirely (every read goes to LiteFS)
 
 	// Locks is the kernel's own record of the POSIX locks it granted to
@@ -211,8 +211,8 @@ func errno(err error) syscall.Errno {
 // answered with EIO). A node exit (Store.Exit) unwinds through here too.
 func (k *Kernel) call(what string, fn func() error) (e syscall.Errno) {
 	if oc := k.OnCall; oc != nil {
-		oc(true)
-		defer oc(false)
+		oc(what, true)
+		defer oc(what, false)
 	}
 	defer func() {
 		if rec := recover(); rec != nil {
